@@ -13,6 +13,7 @@ import Vita.C08.Laws
 import Vita.C08.LifeLemmas
 import Vita.C08.GenStorage
 import Vita.C08.Bridge
+import Vita.C08.DiscLaws
 import Vita.C05.Props
 
 namespace Vita.C08
@@ -316,6 +317,130 @@ theorem binary_evaluator_scores_model (d : List (TEx Rat)) :
   rw [count_is_minus_misclassified]
   simp only [nWrong, List.filter_map, List.length_map]
   rfl
+
+/-! ## discretization.h, distribution, team compositions and model_metric.cc for DOUBLES
+
+  `ConfLaws` / `DiscLaws` : IEEE-754 and libm facts as hypotheses; `ratConfLaws` / `ratDiscLaws`
+  show they are satisfiable. -/
+
+/-- `sigmoid_01(x) ∈ [0,1]` for every double that is not NaN (huge values, ±∞: nothing overflows) -/
+theorem sigmoid01_unit_ieee {F} [Elem F] (L : DiscLaws F) (x : F) (hx : ¬ L.nan x) :
+    nn (sigmoid01 x) ∧ le (sigmoid01 x) (one : F) = true := sigmoid01_unit_ieee' L x hx
+
+/-- `discretization(x, max) ≤ max` for every non-NaN double: the `Ensures` of discretization.h -/
+theorem discretization_le_max_ieee {F} [Elem F] (L : DiscLaws F) (x : F) (hx : ¬ L.nan x) (max : Nat)
+    (hm : max < 2 ^ 53) : discretization x max ≤ max := discretization_le_max_ieee' L x hx max hm
+
+/-- the slot computation with THE discretization of discretization.h: for every output that is not
+    NaN the clamp of `slot()` is never taken (`slot = discretization(value, last_slot)`), and whatever
+    the cast of a NaN yields the clamp keeps the slot inside the table -/
+theorem slot_is_discretization_ieee {F} [Elem F] (L : DiscLaws F) (fns : Fns F)
+    (hd : fns.disc = fun v last => discretization v last) (ns : Nat) (h0 : 0 < ns) (hn : ns < 2 ^ 53) (out : Option F) :
+    slot fns out ns < ns ∧
+    ∀ v, out = some v → ¬ L.nan v → slot fns out ns = discretization v (ns - 1) := by
+  refine ⟨slot_lt fns out ns h0, ?_⟩
+  intro v hv hnan
+  subst hv
+  have := discretization_le_max_ieee' L v hnan (ns - 1) (by omega)
+  unfold slot
+  simp only [hd]
+  split
+  · omega
+  · rfl
+
+example : @DiscLaws Rat ratElem := ratDiscLaws
+
+/-- the distribution the Gaussian classifier keeps per class (`distribution::add` +
+    `update_variance`, exact arithmetic): after any non-empty sequence of values `count` is their
+    number, `mean()` their arithmetic mean and `variance()` their population variance -/
+theorem dist_is_mean_variance (ex : Rat → Rat) (dsc : Rat → Nat → Nat) (xs : List Rat) (h : xs ≠ []) :
+    let fns : Fns Rat := ⟨dsc, ex, fun _ => false, 10000000⟩
+    let d := xs.foldl (Dist.push fns) ⟨0, 0, 0⟩
+    d.count = xs.length ∧ d.mean = xs.sum / (xs.length : Rat) ∧
+    d.variance = (xs.map (fun x => (x - d.mean) * (x - d.mean))).sum / (xs.length : Rat) := by
+  intro fns d
+  have hw := welford_is_mean_variance ex dsc xs h
+  have hb : @Cls.pushAll Rat (ratNumC ex dsc) (@Cls.Dist.empty Rat _) xs = toCls d :=
+    pushAll_eq fns xs ⟨0, 0, 0⟩
+  simp only [hb] at hw
+  exact hw
+
+/-- NaN is never pushed (`isnan(val)` → return), so it can never poison a mean -/
+theorem dist_ignores_nan {F} [NumN F] (fns : Fns F) (d : Dist F) (v : F) (h : fns.isNaN v = true) :
+    d.push fns v = d := by
+  unfold Dist.push; simp [h]
+
+/-- Gaussian `tag` for doubles, the whole function: for any distributions (NaN variances included)
+    and any `exp` whose results are ≥ 0 or NaN, the confidence is in [0,1] -/
+theorem gauss_tag_confidence_unit_ieee {F} [NumN F] (L : ConfLaws F) (fns : Fns F)
+    (hexp : ∀ x, nn (fns.exp x) ∨ L.nan (fns.exp x)) (ds : List (Dist F)) (query : Option F) :
+    nn (gaussTag fns ds query).2 ∧ le (gaussTag fns ds query).2 (one : F) = true := by
+  simp only [gaussTag]
+  apply gaussConf_unit_ieee L
+  intro p hp
+  simp only [List.mem_map] at hp
+  obtain ⟨d, _, rfl⟩ := hp
+  unfold gaussP
+  simp only []
+  split
+  · split
+    · exact Or.inl L.zero_le_one
+    · exact Or.inl L.zero_nn
+  · exact hexp _
+
+/-- majority voting: the winner has the largest number of votes … -/
+theorem mv_rule {F} [NumN F] (classes : Nat) (tags : List (Nat × F)) (j : Nat) :
+    (votesOf classes (tags.map (·.1))).getD j 0 ≤
+      (votesOf classes (tags.map (·.1))).getD (mv classes tags).1 0 := argMaxVotes_max _ j
+
+/-- … and its confidence (share of the votes) is in [0,1] for doubles -/
+theorem mv_conf_unit_ieee {F} [NumN F] (L : ConfLaws F) (classes : Nat) (tags : List (Nat × F)) (h : tags ≠ []) :
+    nn (mv classes tags).2 ∧ le (mv classes tags).2 (one : F) = true := by
+  simp only [mv]
+  apply L.frac_unit
+  · have h1 := getD_le_sum (votesOf classes (tags.map (·.1))) (argMaxVotes (votesOf classes (tags.map (·.1))))
+    have h2 := votesOf_sum_le classes (tags.map (·.1))
+    simp only [List.length_map] at h2
+    omega
+  · cases tags with
+    | nil => exact absurd rfl h
+    | cons _ _ => simp
+
+/-- winner takes all: no member is surer than the winner (exact arithmetic) -/
+theorem wta_rule (tags : List (Nat × Rat)) : ∀ t ∈ tags, t.2 ≤ (wta tags).2 := by
+  cases tags with
+  | nil => intro t ht; cases ht
+  | cons t0 rest =>
+    intro t ht
+    simp only [wta]
+    have := wta_fold_max rest t0
+    simp only [List.mem_cons] at ht
+    rcases ht with rfl | ht
+    · exact this.1
+    · exact this.2 t ht
+
+/-- a team of classifiers, both compositions, for doubles: when every member's confidence is in
+    [0,1] (dyn-slot: always; Gaussian: `gauss_tag_confidence_unit_ieee`) so is the team's -/
+theorem team_confidence_unit_ieee {F} [NumN F] (L : ConfLaws F) (classes : Nat) (tags : List (Nat × F)) (h : tags ≠ [])
+    (hm : ∀ t ∈ tags, nn t.2 ∧ le t.2 (one : F) = true) :
+    (nn (wta tags).2 ∧ le (wta tags).2 (one : F) = true) ∧
+    (nn (mv classes tags).2 ∧ le (mv classes tags).2 (one : F) = true) :=
+  ⟨wta_inherits (fun t => nn t.2 ∧ le t.2 (one : F) = true) tags h hm, mv_conf_unit_ieee L classes tags h⟩
+
+/-- `accuracy_metric` (the only metric of model_metric.cc), both overloads, for doubles: a value in
+    [0,1] on every non-empty dataset -/
+theorem accuracy_unit_ieee {F} [NumN F] (L : ConfLaws F) :
+    (∀ pairs : List (Nat × Nat), pairs ≠ [] →
+      nn (accuracyClass (F := F) pairs) ∧ le (accuracyClass (F := F) pairs) one = true) ∧
+    (∀ pairs : List (Option F × F), pairs ≠ [] →
+      nn (accuracyReg pairs) ∧ le (accuracyReg pairs) one = true) := by
+  constructor
+  · intro pairs h
+    unfold accuracyClass
+    exact L.frac_unit _ _ (List.length_filter_le _ _) (List.length_pos_iff.mpr h)
+  · intro pairs h
+    unfold accuracyReg
+    exact L.frac_unit _ _ (List.length_filter_le _ _) (List.length_pos_iff.mpr h)
 
 /-! ## it is the same function the TRAINING evaluator scored (C05's evaluators END TO END)
 
